@@ -42,6 +42,8 @@ class RealLifecycle:
             self._do(['rr', 'c', [9, self.sent], {'mode': 'later'}])
         elif a == 'cut':
             self._do(['cut', 's', 'eof'])
+        elif a == 'cuterr':
+            self._do(['cut', 'c', 'error'])
         elif a == 'close':
             self._do(['close', 'c'])
         elif a == 'reconnect':
@@ -56,6 +58,8 @@ class RealLifecycle:
             self._call('pend')
         elif name == 'Cut':
             self._call('cut')
+        elif name == 'CutErr':
+            self._call('cuterr')
         elif name == 'Reconnect':
             self._call('reconnect')
         elif name == 'Close':
